@@ -16,7 +16,7 @@ def errname(e):
     return type(e).__name__
 
 
-def explore(graph, prog, max_preempt, workdir, limit=4000):
+def explore(graph, prog, max_preempt, workdir, limit=4000, variant="terminology"):
     """all schedules with at most max_preempt deviations from 'keep running the current thread'"""
     seen, out = set(), []
     stack = [([], 0)]
@@ -26,7 +26,7 @@ def explore(graph, prog, max_preempt, workdir, limit=4000):
         if key in seen:
             continue
         seen.add(key)
-        r = sched.run(graph, prog, prefix, workdir)
+        r = sched.run(graph, prog, prefix, workdir, variant)
         r["prefix"], r["preemptions"] = prefix, p
         out.append(r)
         if p < max_preempt:
@@ -42,18 +42,19 @@ def replay(t):
     """t = {graph, prog, max_preempt, sample}: explore and emit one record per execution"""
     graph, prog = t["graph"], t["prog"]
     wd = os.path.join(os.environ.get("TMPDIR", C.BUILD), "loader_%d" % os.getpid())
-    runs = explore(graph, prog, t["max_preempt"], wd)
+    variant = t.get("variant", "terminology")
+    runs = explore(graph, prog, t["max_preempt"], wd, variant=variant)
     names = list(sched.GRAPHS[graph])
     for n, r in enumerate(runs):
         errs = []
         for tid in sorted(sched.S.threads if False else r["errs"], key=int):
             errs.append(r["errs"][tid])
-        rec = {"fam": "loader", "src": "model", "graph": graph, "prog": prog, "prefix": r["prefix"], "preemptions": r["preemptions"],
+        rec = {"fam": "loader", "src": "model", "variant": variant, "graph": graph, "prog": prog, "prefix": r["prefix"], "preemptions": r["preemptions"],
                "results": r["results"], "errs": errs, "deadlock": r["deadlock"], "cached": r["cached"],
                "fetchok": {x: sched.fetchable(graph, x) for x in names},
                "expected": {x: sched.expected_sig(graph, x) for x in names},
                "steps": r["steps"], "trace_checked": False, "trace_accepted": True}
-        if n % t["sample"] == 0:
+        if variant == "terminology" and n % t["sample"] == 0:
             rec["trace_checked"] = True
             rec["trace_accepted"], rec["trace_reached"] = validate_trace(graph, prog, r["log"], wd)
         yield rec
